@@ -110,6 +110,25 @@ def strictly_below(I, t, root):
     return z3.Or([x == root for x in chain(t)[1:]]) if len(chain(t)) > 1 else z3.BoolVal(False)
 
 
+def keys_in(term, root):
+    """the PRNG keys a value was computed from: the maximal derivation nodes (fold_in / split applications) occurring in
+    `term`, plus `root` itself when it occurs outside any derivation node (i.e. the caller's key was consumed unsplit)"""
+    out, seen = [], set()
+
+    def walk(e):
+        if e.get_id() in seen:
+            return
+        seen.add(e.get_id())
+        if node(e) is not None or e.eq(root):
+            if not any(e.eq(x) for x in out):
+                out.append(e)
+            return
+        for ch in e.children():
+            walk(ch)
+    walk(term)
+    return out
+
+
 def key_of(term, fname, pos=1):
     """the key argument of a callee application such as gf_simulate(G, key, args) (None when the term has another shape)"""
     if z3.is_app(term) and term.decl().name() == fname and term.num_args() > pos:
